@@ -67,40 +67,40 @@ TWO_MC = [{"module": "MC_TwoLevel.tla", "cfg": "MC_TwoLevel_q.cfg", "only": "qui
           {"module": "MC_TwoLevel.tla", "cfg": "MC_TwoLevel_t.cfg", "tier": "thorough", "workers": 16}]
 
 PROPS = {
-    "C01": P(["logic", "consts"], mc=KMC(["logic"]), machine_ops=["logic"], rule="every syntactic form of NOT/AND/OR/XOR on structured and random operand pairs for n = 0..14; "
+    "C01": P(hunt=True, strict_ops=["logic", "consts"], mc=KMC(["logic"]), machine_ops=["logic"], rule="every syntactic form of NOT/AND/OR/XOR on structured and random operand pairs for n = 0..14; "
              "all pairs x forms for n <= 2 (n = 3 thorough); distinct = distinct (form, operands) content"),
     "C02": P([], mc=KMC(["transforms", "text"]),
              machine_ops=["zero", "one", "parity", "majority", "nth_var", "threshold", "equals", "logic", "flip", "swap",
                           "swapadj", "fromcof", "setbit", "vnext"], rule="random call histories (30 calls) over constructors, parser, operators, transforms, cofactoring, mutators, "
              "canonization, successor; every produced table checked for well-formedness, ==/hash/cmp observations and "
              "a value()-rebuilt twin of random slots compared with the original"),
-    "C03": P(["flip", "swap", "swapadj", "cofactors", "fromcof", "consts"], mc=KMC(["transforms"]),
+    "C03": P(hunt=True, strict_ops=["flip", "swap", "swapadj", "cofactors", "fromcof", "consts"], mc=KMC(["transforms"]),
              machine_ops=["flip", "swap", "swapadj", "fromcof"],
              rule="for every n = 1..14 and every index (pair) one structured or random table, copying and in-place forms; "
              "thorough: every table of n <= 4"),
-    "C04": P(["canon"], post_filter=c04_library_order, mc=[{"module": "MC_Canon.tla", "cfg": "MC_Canon_q.cfg", "only": "quick"},
+    "C04": P(hunt=True, strict_ops=["canon"], post_filter=c04_library_order, mc=[{"module": "MC_Canon.tla", "cfg": "MC_Canon_q.cfg", "only": "quick"},
                             {"module": "MC_Canon.tla", "cfg": "MC_Canon_t.cfg", "tier": "thorough", "workers": 16}],
              rule="canonization calls with the walk hook; exact orbit minimum by enumeration in the specification",
              chunk_weight=9000),
-    "C05": P(["canon"], mc=[{"module": "MC_Canon.tla", "cfg": "MC_Canon_q.cfg", "only": "quick"},
+    "C05": P(hunt=True, strict_ops=["canon"], mc=[{"module": "MC_Canon.tla", "cfg": "MC_Canon_q.cfg", "only": "quick"},
                             {"module": "MC_Canon.tla", "cfg": "MC_Canon_t.cfg", "tier": "thorough", "workers": 16}],
              rule="canonization certificates applied by the specification's ApplyCert; every representative fed back",
              chunk_weight=6000),
-    "C06": P(["decomp", "unate", "consts"], mc=KMC(["decomp"]), machine_ops=["decomp"], rule="every variable of structured, cofactor-structured and one-bit-off tables, n = 1..12"),
-    "C07": P(["bdd"], machine_ops=["bdd"],
+    "C06": P(hunt=True, strict_ops=["decomp", "unate", "consts"], mc=KMC(["decomp"]), machine_ops=["decomp"], rule="every variable of structured, cofactor-structured and one-bit-off tables, n = 1..12"),
+    "C07": P(hunt=True, strict_ops=["bdd"], machine_ops=["bdd"],
              mc=[{"module": "MC_Bdd.tla", "cfg": "MC_Bdd_K2_q.cfg", "only": "quick"},
                  {"module": "MC_Bdd.tla", "cfg": "MC_Bdd_K2_t.cfg", "tier": "thorough", "workers": 16},
                  {"module": "MC_Bdd.tla", "cfg": "MC_Bdd_K3_t.cfg", "tier": "thorough", "workers": 16}],
              rule="lists of 0..4 functions with shared structure (adders, muxes, symmetric, cofactors, complements), n = 0..11; "
              "every single function of n <= 3"),
-    "C08": P(["rel", "iter_start", "iter_next", "vnext"], machine_ops=["rel", "vnext"],
+    "C08": P(hunt=True, strict_ops=["rel", "iter_start", "iter_next", "vnext"], machine_ops=["rel", "vnext"],
              mc=KMC(["order"]) + [{"module": "MC_Iter.tla", "cfg": "MC_Iter_K2_q.cfg", "only": "quick"},
                                   {"module": "MC_Iter.tla", "cfg": "MC_Iter_K3_q.cfg", "only": "quick"},
                                   {"module": "MC_Iter.tla", "cfg": "MC_Iter_K2_t.cfg", "tier": "thorough", "workers": 4},
                                   {"module": "MC_Iter.tla", "cfg": "MC_Iter_K3_t.cfg", "tier": "thorough", "workers": 4}],
              rule="ordering observations on structured pairs/triples (one-bit differences in low/high words), cross-size pairs, "
              "complete iterator runs, hooked successor from tables with all-ones low words"),
-    "C09": P(["text", "from_hex"], mc=KMC(["text"]), machine_ops=["text"], rule="all formatting entry points on structured tables; parsing of printed strings, their "
+    "C09": P(hunt=True, strict_ops=["text", "from_hex"], mc=KMC(["text"]), machine_ops=["text"], rule="all formatting entry points on structured tables; parsing of printed strings, their "
              "single-byte mutations, multi-byte characters at chunk boundaries, wrong lengths, exhaustive alphabet strings for n <= 3"),
     "C10": P(["conv_rt", "conv_try", "conv_int"],
              "the same script executed on Lut and on LutN, events compared field by field by the trace specification; "
@@ -109,7 +109,7 @@ PROPS = {
                      {"gen": "C10s", "runs": [("checked", "lut"), ("checked", "lutn")], "validate": [(0, 1)]},
                      {"gen": "C10b", "runs": [("checked", "lut")], "validate": [(0, None)]}],
              count_all=True),
-    "C11": P(CTORS, mc=KMC(["ctors"]), machine_ops=["zero", "one", "parity", "majority", "nth_var", "threshold", "equals"], rule="all named constructors, n = 0..14, all i < n, k in 0..n+2 and 63, 64, 65, 2^32, usize::MAX, "
+    "C11": P(hunt=True, strict_ops=CTORS, mc=KMC(["ctors"]), machine_ops=["zero", "one", "parity", "majority", "nth_var", "threshold", "equals"], rule="all named constructors, n = 0..14, all i < n, k in 0..n+2 and 63, 64, 65, 2^32, usize::MAX, "
              "all count masks for n <= 5 and structured/random 64-bit masks above"),
     "C18": P(["optimize"],
              mc=[{"module": "MC_Optim.tla", "cfg": "MC_Optim_n1.cfg"}, {"module": "MC_Optim.tla", "cfg": "MC_Optim_n2.cfg"},
@@ -124,18 +124,18 @@ PROPS = {
              "every draw well-formed; per thread every assignment sees both values and no two assignments have equal or "
              "complementary signatures; draws pairwise distinct for n >= 8 also across threads (false-alarm probability < 2^-200)",
              chunk_weight=1),
-    "C12": P(mc=TWO_MC, strict_ops=["t_mk", "t_val", "t_bin", "t_rel", "t_implut", "t_info", "t_all"],
+    "C12": P(hunt=True, mc=TWO_MC, strict_ops=["t_mk", "t_val", "t_bin", "t_rel", "t_implut", "t_info", "t_all"],
              rule="all cubes and pairs over n <= 3 (5 thorough) with every assignment, implies_lut against all functions, "
              "constructors up to 32 variables, random 32-variable cubes with random 32-bit assignments"),
-    "C13": P(mc=TWO_MC, strict_ops=["t_mk", "t_val", "t_bin", "t_not", "t_rel", "t_implut", "t_info", "t_all", "t_tolut"],
+    "C13": P(hunt=True, mc=TWO_MC, strict_ops=["t_mk", "t_val", "t_bin", "t_not", "t_rel", "t_implut", "t_info", "t_all", "t_tolut"],
              rule="all exclusive cubes and pairs over n <= 4 (5 thorough), random 32-variable ones; all Soes of <= 2 (3) terms over n <= 3, random to n = 8"),
-    "C14": P(mc=TWO_MC, strict_ops=["t_mk", "t_val", "t_bin", "t_not", "t_info", "t_tolut"],
+    "C14": P(hunt=True, mc=TWO_MC, strict_ops=["t_mk", "t_val", "t_bin", "t_not", "t_info", "t_tolut"],
              rule="all cube lists of <= 2 (3) cubes over n <= 3, Lut->Sop->Lut for every function of n <= 3 (4), nested expressions "
              "(depth <= 4) over random redundant/overlapping/duplicated cube lists up to n = 10", chunk_weight=6000),
-    "C15": P(mc=TWO_MC, strict_ops=["t_mk", "t_val", "t_bin", "t_not", "t_info", "t_tolut"],
+    "C15": P(hunt=True, mc=TWO_MC, strict_ops=["t_mk", "t_val", "t_bin", "t_not", "t_info", "t_tolut"],
              rule="Lut->Esop for every function of n <= 3 (4 thorough) and structured/random functions to n = 10; operators on random cube lists",
              chunk_weight=6000),
-    "C16": P(mc=TWO_MC, strict_ops=["t_text", "t_alltext"],
+    "C16": P(hunt=True, mc=TWO_MC, strict_ops=["t_text", "t_alltext"],
              rule="printed text of all cubes / exclusive cubes over n <= 4, all forms of <= 2 (3) terms over n <= 3, random forms with "
              "two-digit variable indices; parsed and evaluated by the specification on every assignment"),
     "C17": P([], machine_ops=["nth_var", "flip", "swap", "swapadj", "fromcof", "setbit", "decomp"], rule="out-of-range indices/assignments, size-mismatched operands, wrong slice lengths on every index-taking "
